@@ -135,3 +135,14 @@ Theorem C06_compare_qualified_refines_partial : forall (e : env) (rvs : list nod
   end.
 Proof. exact compare_qualified_refines. Qed.
 Print Assumptions C06_compare_qualified_refines_partial.
+
+(** ** the Go side (Model/GoGen.v = result.go buildQueries, tied to the generator through the verif
+    hook): the argument of the method - the single value or the Params struct - carries, in parameter
+    order, goType of the column each parameter was resolved to *)
+From Verif Require Import Model.GoGen Proofs.GoGenFacts.
+Theorem C06_go_argument_types_partial : forall st c name ps v,
+  build_arg st c name ps = Ok v ->
+  (forall p, In p ps -> go_type_of st c (param_col p) <> "") ->
+  ret_types_of v = map (fun p => go_type_of st c (param_col p)) ps.
+Proof. exact arg_types_are_param_types. Qed.
+Print Assumptions C06_go_argument_types_partial.
